@@ -11,5 +11,5 @@ CONSTANTS
   IndentPairs <- MCIndentPairs
   BWs = {TRUE, FALSE}
   Splitters = {"none", "hyphen"}
-INVARIANTS C05ii C09 C09crlf C13 C14 C15 C16 Emit
+INVARIANTS C05ii C08rel C09 C09crlf C13 C14 C15 C16 Emit
 CHECK_DEADLOCK FALSE
